@@ -302,7 +302,7 @@ def r12_3(ctx):
     # Task._reset clears samples and finish time
     r = ctx.repo.fn("progress:Task._reset")
     src = norm(r.node)
-    ctx.check("self._progress.clear()" in src and "self.finished_time = None" in src, r.fq, "_reset body", r.where, "_reset clears samples and finished_time",
+    ctx.shape("self._progress.clear()" in src and "self.finished_time = None" in src, r.fq, "_reset body", r.where, "_reset clears samples and finished_time",
               "Task._reset no longer clears both the speed samples and finished_time (finish time must not stay fixed across a total change / reset)")
     # update(): total change resets
     u = ctx.repo.fn("progress:Progress.update")
